@@ -68,6 +68,7 @@ theorem noNewPolicy_moves {cfg : Cfg} {K : Kind → Bool} {a b : Abs} (m : Moves
     case store h ps _ => rw [hsb] at h; cases h
     case expire host => exact ⟨fun k p hg => hn k p (dictGet_dictDel hg), hf⟩
     case conn f hh hr hp hj hpol => simp at hk; omega
+    case connFail f hh hr hp => simp at hk; omega
     all_goals exact ⟨hn, hf⟩
 
 /-- with the stub driver no socket is ever opened by a handler -/
@@ -78,6 +79,7 @@ theorem sock_const_stub {cfg : Cfg} {K : Kind → Bool} (hr : cfg.realDriver = f
   | step _ m ih =>
     cases m
     case conn f hh hrr hp hj hpol => rw [hr] at hrr; cases hrr
+    case connFail f hh hrr hp => rw [hr] at hrr; cases hrr
     all_goals exact ih
 
 /-- a handler that may not store a policy never adds or changes one -/
@@ -99,6 +101,7 @@ theorem forced_const_moves {cfg : Cfg} {K : Kind → Bool} (hK : K .connPerm = f
   | step _ m ih =>
     cases m
     case conn f hh hr hp hj hpol => rw [hK] at hp; cases hp
+    case connFail f hh hr hp => rw [hK] at hp; cases hp
     all_goals exact ih
 
 /-- no handler both stores policies and opens sockets -/
